@@ -39,8 +39,16 @@ Section Merge.
         | [] => [(fst s, fold_left fadd pend (snd s))]
         end
     end.
-  Definition canon (p : pulse) : list seg := merge_runs [] (segments p).
 End Merge.
+
+(* segments that count: those of non-zero duration, unless all or none of them are (the code's condition) *)
+Definition seg_nonzero (s : seg) : bool := nonzero_dt (snd s).
+Definition effective_segments (p : pulse) : list seg :=
+  let segs := segments p in
+  if existsb seg_nonzero segs && negb (forallb seg_nonzero segs) then filter seg_nonzero segs else segs.
+Definition canon (fadd : num -> num -> num) (p : pulse) : list seg := merge_runs fadd [] (effective_segments p).
+(* canonical form before fix ac70929: zero-duration segments kept *)
+Definition canon_prefix (fadd : num -> num -> num) (p : pulse) : list seg := merge_runs fadd [] (segments p).
 
 (* consecutive duplicates removed *)
 Fixpoint compress (l : list (col * col)) : list (col * col) :=
